@@ -57,4 +57,9 @@ theorem src_sanitizer :
     Gen.sanitizerIsolatedTestCountsAgainstValidFeatures = true ∧ Gen.sanitizerComparesMaskWithFit = true ∧
     Gen.sanitizerComputeAssignsInOrder = true := by decide
 
+/-- source obligation (cross-set models): fields whose entirely missing samples sit at different positions are refused whenever
+the retained-sample masks differ anywhere — not merely when their counts differ -/
+theorem src_dropped_samples_compared_by_position :
+    Gen.crossDroppedSamplesCondition = ["kept[0].shape == kept[1].shape and (kept[0] != kept[1]).any()"] := by decide
+
 end C06
